@@ -21,6 +21,9 @@ for p in props:
         na.append({"property_id": pid, "reason": NA_REASONS.get(pid, "check under construction (framework being built; see DESIGN.md section 5) - temporary entry")})
         continue
     mod = importlib.import_module(f"vf.props.{pid}")
+    if getattr(mod, "READY", True) is False:
+        na.append({"property_id": pid, "reason": NA_REASONS.get(pid, "check under construction (framework being built; see DESIGN.md section 5) - temporary entry")})
+        continue
     level = getattr(mod, "LEVEL", "proof")
     technique = getattr(mod, "TECHNIQUE", "contract harnesses on the real functions, VCs generated from the ast by symbolic execution, discharged by z3/cvc5"
                         + ("" if level == "proof" else "; labelled bounded stand-in for the part outside the generator's reach"))
